@@ -63,6 +63,29 @@ def run(ctx):
                                   % (w, kind, pre, out[:3]), {"engine": "cases", "w": list(w), "kind": kind})
                 results.append({"w": list(w), "kind": kind, "out": out})
                 meta.append((w, kind, yk))
+    # the elements themselves repeat: combine the weights directly (as the library's own callers do)
+    vres, vmeta = [], []
+    for n in range(0, k["MaxLen"] + 1):
+        for w in itertools.product(range(k["MaxW"] + 1), repeat=n):
+            kind = "sum" if (sum(w) + n) % 2 else "max"
+            keyf = sum if kind == "sum" else max
+            out = []
+            try:
+                for comb, kk in itertools.islice(g.sorted_combinations(list(w), keyf, yield_key=True), 0, 2 ** n + 3):
+                    out.append({"c": list(comb), "k": kk})
+            except Exception as e:
+                ctx.violation({"kind": "case", "fn": "sorted_combinations"}, "elements %s key %s: raised %r" % (w, kind, e),
+                              {"engine": "cases", "elements": list(w), "kind": kind})
+                continue
+            ctx.case(("sorted_combinations_values", w, kind))
+            ctx.traces += 1
+            vres.append({"e": list(w), "kind": kind, "out": out})
+            vmeta.append((w, kind))
+    for (w, kind), r, ok in zip(vmeta, vres, cases.judge(SPEC, consts, vres, ctx, "sorted_combinations_values", law="LawValues")):
+        if not ok:
+            ctx.violation({"kind": "case", "fn": "sorted_combinations"},
+                          "elements %s (repeated values) key %s: the output %s is not a legal output (every combination of positions "
+                          "once, non-decreasing keys)" % (w, kind, canon(r["out"])[:300]), {"engine": "cases", "result": r})
     verdicts = cases.judge(SPEC, consts, results, ctx, "sorted_combinations")
     for (w, kind, yk), r, ok in zip(meta, results, verdicts):
         if not ok:
